@@ -72,19 +72,26 @@ where
                             if !firsts.is_epsilon_set(s_ridx) {
                                 epsilon = false;
                             }
-                            if sidx < prod.len() - 1 {
-                                match prod[sidx + 1] {
+                            // Add the first set of what follows this symbol: that is the first
+                            // set of the next symbol and, for as long as the symbols we pass over
+                            // can derive the empty string, of the symbols after it.
+                            for nxt_sym in &prod[sidx + 1..] {
+                                match *nxt_sym {
                                     Symbol::Token(nxt_tidx) => {
                                         if follows[usize::from(s_ridx)]
                                             .set(usize::from(nxt_tidx), true)
                                         {
                                             changed = true;
                                         }
+                                        break;
                                     }
                                     Symbol::Rule(nxt_ridx) => {
                                         if follows[usize::from(s_ridx)].or(firsts.firsts(nxt_ridx))
                                         {
                                             changed = true;
+                                        }
+                                        if !firsts.is_epsilon_set(nxt_ridx) {
+                                            break;
                                         }
                                     }
                                 }
